@@ -51,6 +51,49 @@ def _wide(s: str) -> str:
     return 'L"' + "".join(one(c) for c in s) + '"'
 
 
+def _run_with_watchdog(cmd: List[str], quiet_s: float) -> Any:
+    """Run ``cmd``; returns (stdout so far, hung, return code, stderr).  ``hung``: no output for ``quiet_s`` seconds."""
+    import selectors
+    import time
+    proc = subprocess.Popen(cmd, stdout=subprocess.PIPE, stderr=subprocess.PIPE)
+    assert proc.stdout is not None and proc.stderr is not None
+    os.set_blocking(proc.stdout.fileno(), False)
+    sel = selectors.DefaultSelector()
+    sel.register(proc.stdout, selectors.EVENT_READ)
+    chunks: List[bytes] = []
+    last = time.time()
+    hung = False
+    while True:
+        events = sel.select(timeout=0.25)
+        if events:
+            data = os.read(proc.stdout.fileno(), 1 << 16)
+            if data:
+                chunks.append(data)
+                last = time.time()
+                continue
+            break  # end of file
+        if proc.poll() is not None:
+            rest = proc.stdout.read()
+            if rest:
+                chunks.append(rest)
+            break
+        if time.time() - last > quiet_s:
+            hung = True
+            proc.kill()
+            break
+    try:
+        proc.wait(timeout=30)
+    except subprocess.TimeoutExpired:
+        proc.kill()
+    err = b""
+    try:
+        err = proc.stderr.read() or b""
+    except (OSError, ValueError):
+        pass
+    sel.close()
+    return b"".join(chunks).decode("ascii", "replace"), hung, (proc.returncode if not hung else -9), err.decode("utf-8", "replace")
+
+
 def _has_empty_cycle(pattern: str) -> bool:
     """The program of ``pattern`` has a cycle through jump / split instructions only (no character consumed)."""
     from aas_core_codegen.intermediate import revm
@@ -138,10 +181,10 @@ def bounded(seed: int = 0, stride: int = 41, max_len: int = 3, hang_s: int = 5, 
         lines: List[str] = []
         start = 0
         while start < len(accepted):
-            try:
-                run = subprocess.run([str(root / "matcher"), str(start)], capture_output=True, text=True, timeout=hang_s)
-            except subprocess.TimeoutExpired as e:
-                done = e.stdout.decode("ascii", "replace") if isinstance(e.stdout, bytes) else (e.stdout or "")
+            # a program "does not terminate" if the matcher prints nothing for ``hang_s`` seconds (every answer is
+            # flushed; on a loaded machine the whole run may take longer than that, a single answer does not)
+            done, hung, rc, err = _run_with_watchdog([str(root / "matcher"), str(start)], hang_s)
+            if hung:
                 rows = done.split("\n")
                 lines.extend(rows[:-1])
                 k, j = start + len(rows) - 1, len(rows[-1])
@@ -150,16 +193,15 @@ def bounded(seed: int = 0, stride: int = 41, max_len: int = 3, hang_s: int = 5, 
                 cyc = _has_empty_cycle(pat)
                 failures.append({"pattern": pat, "text": strings[j] if j < len(strings) else "?",
                                  "kind": "no-termination-on-an-empty-loop" if cyc else "no-termination",
-                                 "observed": f"the generated C++ matcher does not terminate ({hang_s} s) on this pattern "
-                                             f"and text" + ("; the program has a cycle of jumps and splits that consumes "
-                                                            "no character" if cyc else "")})
+                                 "observed": f"the generated C++ matcher does not terminate (no answer for {hang_s} s) on "
+                                             f"this pattern and text" + ("; the program has a cycle of jumps and splits "
+                                                                         "that consumes no character" if cyc else "")})
                 start = k + 1
                 continue
-            if run.returncode != 0:
+            if rc != 0:
                 return {"cases": len(accepted), "distinct": len(accepted), "exhaustive": False,
-                        "failures": [{"observed": f"the generated matcher exits with {run.returncode}: "
-                                                  f"{run.stderr[-400:]}"}]}
-            lines.extend(run.stdout.splitlines())
+                        "failures": [{"observed": f"the generated matcher exits with {rc}: {err[-400:]}"}]}
+            lines.extend(done.splitlines())
             break
     if len(lines) != len(accepted):
         failures.append({"observed": f"{len(lines)} result lines for {len(accepted)} programs"})
